@@ -64,8 +64,77 @@ func New(prog *mrogen.Program, src, dir, mroot string, pl *plan.Plan) (*Case, er
 	if err := os.WriteFile(filepath.Join(dir, "prog.mro"), []byte(src), 0o644); err != nil {
 		return nil, err
 	}
+	for _, st := range prog.Stages {
+		if st.SrcLang != "py" {
+			continue
+		}
+		// a python stage module run through adapters/python/martian_shell.py
+		modDir := filepath.Join(dir, st.SrcPath)
+		if err := os.MkdirAll(modDir, 0o755); err != nil {
+			return nil, err
+		}
+		code := strings.NewReplacer("@STAGEBIN@", filepath.Join(mroot, "bin", "stagebin"), "@STAGE@", st.Name).Replace(pyStageModule)
+		if err := os.WriteFile(filepath.Join(modDir, "__init__.py"), []byte(code), 0o644); err != nil {
+			return nil, err
+		}
+	}
 	return c, pl.Write(dir)
 }
+
+// pyStageModule is the code of a python stage: it asks stagebin (the same
+// stage function as everywhere else) what to return and hands that to the
+// adapter, or fails the way the fault plan says.
+const pyStageModule = `import json
+import os
+import signal
+import subprocess
+
+import martian
+
+STAGEBIN = "@STAGEBIN@"
+STAGE = "@STAGE@"
+
+
+def _text(b):
+    return b.decode("utf-8") if isinstance(b, bytes) else b
+
+
+def _ask(phase):
+    md = martian._INSTANCE.metadata
+    env = dict(os.environ, STAGEBIN_PY="1")
+    p = subprocess.run([STAGEBIN, STAGE, phase, _text(md.path), _text(md.files_path), "py"],
+                       env=env, stdout=subprocess.PIPE)
+    if p.returncode != 0:
+        raise Exception("stagebin exited with %d" % p.returncode)
+    res = json.loads(p.stdout.decode("utf-8"))
+    fault = res.get("fault")
+    if fault:
+        kind = fault["kind"]
+        if kind == "exit":
+            os._exit(3)
+        elif kind == "signal":
+            os.kill(os.getpid(), signal.SIGKILL)
+        elif kind == "assert":
+            martian.exit(fault["text"])
+        elif kind == "errpipe":
+            raise ValueError(fault["text"])
+        # (gates and delays have been acted out by stagebin already)
+    return res["outs"]
+
+
+def split(args):
+    return _ask("split")
+
+
+def main(args, outs):
+    for k, v in _ask("main").items():
+        setattr(outs, k, v)
+
+
+def join(args, outs, chunk_defs, chunk_outs):
+    for k, v in _ask("join").items():
+        setattr(outs, k, v)
+`
 
 func (c *Case) PsDir() string { return filepath.Join(c.Dir, "ps") }
 
